@@ -582,6 +582,10 @@ func stateFoundArrayItemBeginOrEmpty(s *Scanner, c byte) state {
 		s.found(lexeme.NewLine)
 		return scanContinue
 	}
+	if bytes.IsBlank(c) {
+		// A blank is not an item: `[ ]` is as empty as `[]`.
+		return scanContinue
+	}
 	if s.isCommentStart(c) {
 		s.switchToComment()
 		return scanContinue
